@@ -1,0 +1,158 @@
+//go:build verif
+
+package scheduler
+
+// Verification hooks. This file is compiled only with the "verif" build
+// tag; without it vtrace is an empty function (verif_off.go).
+//
+// Every hook call sits after the state change it reports. The hook runs on
+// the goroutine that produced the event, so an installed VerifHook may also
+// delay or block that goroutine (used to steer schedules).
+
+import (
+	"bytes"
+	"context"
+	"encoding/json"
+	"errors"
+	"os"
+	"reflect"
+	"runtime"
+	"strconv"
+	"sync"
+	"sync/atomic"
+)
+
+// VerifEvent is one hook event.
+type VerifEvent struct {
+	Sched uintptr       // identity of the scheduler (address of its readyc)
+	Ev    string        // event name
+	Job   *ScheduledJob // job concerned, if any
+	Deps  []*ScheduledJob
+	Err   error
+	// Loop counters at loop events: pending, ongoing, waiting, len(ready).
+	// For "s_new": concurrency, continueOnError, emitter != nil.
+	A, B, C, D int
+}
+
+// VerifHook, when non-nil, receives every hook event on the goroutine that
+// produced it. Set it before any scheduler is created.
+var VerifHook func(VerifEvent)
+
+// VerifErrJobInvalid exposes the internal sentinel for classification.
+var VerifErrJobInvalid = errJobInvalid
+
+// VerifGoID returns the current goroutine's id.
+func VerifGoID() int64 {
+	var buf [64]byte
+	n := runtime.Stack(buf[:], false)
+	// "goroutine 123 [running]:"
+	f := bytes.Fields(buf[:n])
+	if len(f) < 2 {
+		return -1
+	}
+	id, _ := strconv.ParseInt(string(f[1]), 10, 64)
+	return id
+}
+
+// VerifClassify maps an error seen by the scheduler to a coarse class:
+// "nil", "INV" (internal sentinel), "CTX" (context error), "X" (worker
+// exited), or "E" (anything else).
+func VerifClassify(err error) string {
+	switch {
+	case err == nil:
+		return "nil"
+	case errors.Is(err, errJobInvalid):
+		return "INV"
+	case errors.Is(err, context.Canceled), errors.Is(err, context.DeadlineExceeded):
+		return "CTX"
+	case err.Error() == "job exited unexpectedly":
+		return "X"
+	}
+	return "E"
+}
+
+func vbool(b bool) int {
+	if b {
+		return 1
+	}
+	return 0
+}
+
+func vtrace(id interface{}, ev string, j *ScheduledJob, err error, a, b, c, d int) {
+	h := VerifHook
+	if h == nil {
+		return
+	}
+	e := VerifEvent{Sched: reflect.ValueOf(id).Pointer(), Ev: ev, Job: j, Err: err, A: a, B: b, C: c, D: d}
+	if j != nil {
+		e.Deps = j.deps
+	}
+	h(e)
+}
+
+// File recorder: if VERIF_TRACE_FILE is set, every event of every scheduler
+// in the process is appended to that file as one JSON object per line. No
+// goroutine is started. This lets any test binary built with -tags verif
+// act as a trace source.
+
+type verifRec struct {
+	S    int    `json:"s"`   // scheduler number within the process
+	G    int64  `json:"g"`   // goroutine id
+	Seq  int64  `json:"seq"` // global sequence number (diagnostic only)
+	Ev   string `json:"ev"`
+	Job  int    `json:"job"`
+	Deps []int  `json:"deps"`
+	Err  string `json:"err"`
+	P    int    `json:"p"`
+	O    int    `json:"o"`
+	W    int    `json:"w"`
+	R    int    `json:"r"`
+}
+
+type verifFileRecorder struct {
+	mu     sync.Mutex
+	f      *os.File
+	scheds map[uintptr]int
+	jobs   map[*ScheduledJob]int
+	njobs  map[int]int
+	seq    int64
+}
+
+func (r *verifFileRecorder) hook(e VerifEvent) {
+	g := VerifGoID()
+	r.mu.Lock()
+	defer r.mu.Unlock()
+	if e.Ev == "s_new" {
+		// The address may be reused by a later scheduler.
+		r.scheds[e.Sched] = len(r.njobs) + 1
+		r.njobs[r.scheds[e.Sched]] = 0
+	}
+	s := r.scheds[e.Sched]
+	rec := verifRec{S: s, G: g, Seq: atomic.AddInt64(&r.seq, 1), Ev: e.Ev, Deps: []int{},
+		Err: VerifClassify(e.Err), P: e.A, O: e.B, W: e.C, R: e.D}
+	if e.Job != nil {
+		if e.Ev == "c_enq_begin" {
+			r.njobs[s]++
+			r.jobs[e.Job] = r.njobs[s]
+			for _, d := range e.Deps {
+				rec.Deps = append(rec.Deps, r.jobs[d])
+			}
+		}
+		rec.Job = r.jobs[e.Job]
+	}
+	b, _ := json.Marshal(rec)
+	r.f.Write(append(b, '\n'))
+}
+
+func init() {
+	path := os.Getenv("VERIF_TRACE_FILE")
+	if path == "" {
+		return
+	}
+	f, err := os.OpenFile(path, os.O_CREATE|os.O_WRONLY|os.O_APPEND, 0o644)
+	if err != nil {
+		panic(err)
+	}
+	r := &verifFileRecorder{f: f, scheds: map[uintptr]int{}, jobs: map[*ScheduledJob]int{}, njobs: map[int]int{}}
+	VerifHook = r.hook
+}
